@@ -29,7 +29,9 @@ DAY = 86400
 def plan(tier, seed):
     n = 48 if tier == 'quick' else 400
     return [{'kind': 'chains', 'count': 48 if tier == 'quick' else 64, 'weight': 3} for _ in range(n)] + \
-           [{'kind': 'profile', 'weight': 3} for _ in range(8 if tier == 'quick' else 24)]
+           [{'kind': 'profile', 'weight': 3} for _ in range(8 if tier == 'quick' else 24)] + \
+           [{'kind': 'sweep', 'lengths': (0, 1, 2, 3) if tier == 'quick' else (0, 1, 2, 3, 4), 'slice': i, 'nslices': 32, 'rep': rep,
+             'both_roles': tier != 'quick', 'weight': 3} for rep in range(1 if tier == 'quick' else 2) for i in range(32)]
 
 
 def worker_init(ctx):
@@ -207,7 +209,7 @@ def toolkit_shaped(chain, root, anchors, role, depth, now, enc=None):
 DEFECTS = ['validity-expired', 'validity-notyet', 'validity-notyet-by-a-multiple-of-2^32-seconds', 'validity-notyet-by-2^31-seconds', 'validity-edge-after', 'validity-edge-at', 'validity-edge-before', 'bc-absent', 'bc-cafalse',
            'bc-pathlen-low', 'bc-pathlen-high', 'bc-pathlen-absent', 'ku-absent', 'ku-digsig-only', 'ku-both', 'ku-keyenc',
            'ku-noncritical', 'eku-server', 'eku-client', 'eku-any', 'eku-critical-server', 'sig-corrupt', 'sig-foreign', 'issuer-mismatch',
-           'unknown-ext', 'unknown-critical-ext', 'unknown-critical-ext-alias', 'version-v1', 'leaf-is-ca', 'ku-certsign-on-leaf']
+           'unknown-ext', 'unknown-critical-ext', 'unknown-critical-ext-alias', 'version-v1', 'leaf-is-ca', 'ku-certsign-on-leaf', 'no-extensions']
 
 
 def mutate(rec, d, pos, n_inter, rng):
@@ -275,6 +277,9 @@ def mutate(rec, d, pos, n_inter, rng):
     elif d == 'version-v1':
         rec['version'] = 0
         rec['bc'] = rec['ku'] = rec['eku'] = rec['unknown_ext'] = None     # v1 has no extensions
+    elif d == 'no-extensions':
+        # a v3 certificate without the optional extensions field: fine for a subscriber, never a CA
+        rec['bc'] = rec['ku'] = rec['eku'] = rec['unknown_ext'] = None
     elif d == 'leaf-is-ca':
         rec['bc'] = (True, None)
     elif d == 'ku-certsign-on-leaf':
@@ -294,14 +299,18 @@ def offer(ctx, chain_ders, store_ders, role, depth, tlcp):
     return r == 1
 
 
-def one_case(ctx, tag, n_inter, ndef, tlcp, stats):
+def one_case(ctx, tag, n_inter, ndef, tlcp, stats, forced=None, role=None, depth=None):
     rng = ctx.rng
     chain, root, enc = base_chain(tag, n_inter, tlcp)
-    role = rng.choice(['server', 'client'])
-    depth = rng.choice([n_inter, n_inter, 4, 5, max(0, n_inter - 1), 0])
+    role = role or rng.choice(['server', 'client'])
+    depth = rng.choice([n_inter, n_inter, 4, 5, max(0, n_inter - 1), 0]) if depth is None else depth
     now = NOW
     applied = []
     anchor_state = 'present'
+    for fd, fpos in forced or []:
+        targets = chain + [root] + ([enc] if enc else [])
+        mutate(targets[fpos], fd, fpos if fpos <= n_inter + 1 else 0, n_inter, rng)
+        applied.append((fd, fpos))
     for _ in range(ndef):
         d = rng.choice(DEFECTS + ['anchor-absent', 'anchor-other-key', 'clock-late', 'clock-early'])
         if d == 'anchor-absent':
@@ -387,5 +396,26 @@ def u_profile(ctx, u):
     ctx.sample({'kind': 'profile', 'chains': stats['profile']})
 
 
+def u_sweep(ctx, u):
+    """One defect at a time at every position of every chain length (leaf, each intermediate, the trust anchor, the TLCP
+    encryption certificate), with a generous depth so that nothing but the defect decides: the random unit reaches a given
+    (defect, position, length) combination only by luck, and several conditions are enforced per position."""
+    stats = {'profile': 0}
+    jobs = []
+    for n_inter in u['lengths']:
+        for tlcp in (False, True):
+            npos = n_inter + 2 + (1 if tlcp else 0)
+            for pos in range(npos):
+                for d in DEFECTS:
+                    jobs.append((n_inter, tlcp, pos, d))
+    mine = [j for i, j in enumerate(jobs) if i % u['nslices'] == u['slice']]
+    for k, (n_inter, tlcp, pos, d) in enumerate(mine):
+        role = ('server', 'client')[(k + u.get('rep', 0)) % 2] if not u.get('both_roles') else None
+        for r in ((role,) if role else ('server', 'client')):
+            one_case(ctx, 'c07s-%d-%d' % (u['_i'], k), n_inter, 0, tlcp, stats, forced=[(d, pos)], role=r, depth=max(n_inter, 4))
+            ctx.stat('sweep_cases')
+    ctx.sample({'kind': 'sweep', 'jobs_in_slice': len(mine), 'first': mine[:3]})
+
+
 def run_unit(ctx, u):
-    {'chains': u_chains, 'profile': u_profile}[u['kind']](ctx, u)
+    {'chains': u_chains, 'profile': u_profile, 'sweep': u_sweep}[u['kind']](ctx, u)
